@@ -916,12 +916,36 @@ for _p in ("C07", "C18"):
 
 
 # ------------------------------------------------------------------ the whole stack under a real tokio runtime (System.tla / ObsSys.tla)
+SYS_CONSTS = dict(Conns="{1, 2}", Keys="{1}", Calls="{1, 2}", N=1, L=1, Mif=2, Deadlines="{2, 9}", MaxTime=3, MaxEnv=7, Phased=True, ExportSched=False)
+
+
+def sys_to_sched(g, consts):
+    steps = g["steps"]
+    acts = tuple(sorted({s["a"] for s in steps}))
+    lim = consts["L"]
+    return dict(cfg={"n": consts["N"], "limit": -1 if isinstance(lim, str) else lim, "maxInFlight": consts["Mif"], "buf": 100, "respBuf": 100},
+                steps=steps, tags=acts)
+
+
+def sys_model(name, tiers=("quick", "thorough"), **over):
+    return dict(module="MC_System", name=name, constants=dict(SYS_CONSTS, **over), quick={}, thorough={}, tiers=tiers,
+                invariants=["TypeOK", "Inv_Sys"], coverage=False, workers=4, timeout_thorough=2400)
+
+
+def sys_export(name, tiers=("quick", "thorough"), **over):
+    return dict(module="MC_System", name=name, tiers=tiers, constants=dict(SYS_CONSTS, ExportSched=True, **over), quick={}, thorough=dict(MaxEnv=8),
+                to_sched=sys_to_sched, view="View", cap_quick=400, cap_thorough=6000, timeout=600, simulate_quick=300, simulate_thorough=4000, depth=60)
+
+
 def sys_family(rq, rt):
-    return dict(family="sys", trace_module="Trace_Sys", random_quick=rq, random_thorough=rt, exports=[], no_mech=True, tag="sys")
+    return dict(family="sys", trace_module="Trace_Sys", random_quick=rq, random_thorough=rt, no_mech=True, tag="sys",
+                exports=[sys_export("phased"), sys_export("phased-mif1-nolimit", tiers=("thorough",), Mif=1, L="<-NoL", Calls="{1, 2, 3}", MaxEnv=6)])
 
 
 for _p in ("C01", "C02", "C04", "C10", "C12", "C13"):
     PROPS[_p]["families"].append(sys_family(700, 12000))
+    PROPS[_p]["models"].append(sys_model("system-phased", tiers=("quick", "thorough") if _p in ("C12", "C13") else ("thorough",)))
+    PROPS[_p]["models"].append(sys_model("system-interleaved", tiers=("thorough",), Phased=False, MaxEnv=6))
     PROPS[_p]["assumptions"] = PROPS[_p]["assumptions"] + [
         "sys family: listener -> max_channels_per_key -> max_concurrent_requests_per_channel -> execute -> spawn_incoming and spawned "
         "clients on a current-thread tokio runtime with a paused clock, run until idle after (batches of) application steps; "
